@@ -245,17 +245,19 @@ func (e *engEnv) persister() persistence.Persister {
 
 // fillOtherNetwork replaces the content of network B by the given tuples.
 func (e *engEnv) fillOtherNetwork(ts []Tup) error {
-	if err := e.other.DeleteAllRelationTuples(e.ctxB, &relationtuple.RelationQuery{}); err != nil {
-		return err
-	}
-	if len(ts) == 0 {
-		return nil
-	}
 	its := make([]*relationtuple.RelationTuple, len(ts))
 	for i, t := range ts {
 		its[i] = t.internal()
 	}
-	return e.other.WriteRelationTuples(e.ctxB, its...)
+	return retryLocked(func() error {
+		if err := e.other.DeleteAllRelationTuples(e.ctxB, &relationtuple.RelationQuery{}); err != nil {
+			return err
+		}
+		if len(its) == 0 {
+			return nil
+		}
+		return e.other.WriteRelationTuples(e.ctxB, its...)
+	})
 }
 
 func newEngEnv(t testing.TB) *engEnv {
@@ -373,9 +375,10 @@ func (e *engEnv) prepare(c *EngCase, o *Out) error {
 	if _, err := e.reg.Config(e.ctx).NamespaceManager(); err != nil {
 		return err
 	}
-	// store
+	// store (a goroutine left over from an earlier concurrent check may still hold a read cursor:
+	// SQLITE_LOCKED on the shared in-memory cache, reported as a serialization failure - retry)
 	m := e.manager()
-	if err := m.DeleteAllRelationTuples(e.ctx, &relationtuple.RelationQuery{}); err != nil {
+	if err := retryLocked(func() error { return m.DeleteAllRelationTuples(e.ctx, &relationtuple.RelationQuery{}) }); err != nil {
 		return err
 	}
 	if len(c.Tuples) > 0 {
@@ -383,7 +386,13 @@ func (e *engEnv) prepare(c *EngCase, o *Out) error {
 		for i, t := range c.Tuples {
 			its[i] = t.internal()
 		}
-		if err := m.WriteRelationTuples(e.ctx, its...); err != nil {
+		if err := retryLocked(func() error {
+			// a failed attempt may have been rolled back only in part of our knowledge: start from empty
+			if err := m.DeleteAllRelationTuples(e.ctx, &relationtuple.RelationQuery{}); err != nil {
+				return err
+			}
+			return m.WriteRelationTuples(e.ctx, its...)
+		}); err != nil {
 			return err
 		}
 	}
@@ -396,7 +405,7 @@ func (e *engEnv) prepare(c *EngCase, o *Out) error {
 		extra := c.BoundaryMember(stored)
 		c.BoundaryMember = nil
 		if extra != nil {
-			if err := m.WriteRelationTuples(e.ctx, extra.internal()); err != nil {
+			if err := retryLocked(func() error { return m.WriteRelationTuples(e.ctx, extra.internal()) }); err != nil {
 				return err
 			}
 			if stored, err = e.storedOrder(append(append([]Tup(nil), stored...), *extra)); err != nil {
@@ -740,4 +749,22 @@ func (e *engEnv) runCheck(c *EngCase, det bool) (res string, calls int64) {
 		e.hung = true
 		return "hang/none", atomic.LoadInt64(&n)
 	}
+}
+
+
+// retryLocked retries an operation of the harness itself (never one of the code under test's
+// observed operations) while sqlite reports the shared cache as locked.
+func retryLocked(f func() error) error {
+	var err error
+	for try := 0; try < 400; try++ {
+		if err = f(); err == nil {
+			return nil
+		}
+		msg := err.Error()
+		if !strings.Contains(msg, "serialize access") && !strings.Contains(msg, "locked") && !strings.Contains(msg, "busy") {
+			return err
+		}
+		time.Sleep(5 * time.Millisecond)
+	}
+	return err
 }
